@@ -257,14 +257,16 @@ func (e *Engine) Verify(c *Contract) []*Result {
 		out = append(out, first)
 		for j := 1; j < first.Exec.numReturns; j++ {
 			r := e.verifyCase(c, combo, j)
-			// obligations raised inside the body were already produced by run 0
-			var keep []*Obligation
-			for i, o := range r.Obls {
-				if i >= r.Exec.oblAtReturn {
-					keep = append(keep, o)
+			if !c.SplitPaths {
+				// obligations raised inside the body were already produced by run 0
+				var keep []*Obligation
+				for i, o := range r.Obls {
+					if i >= r.Exec.oblAtReturn {
+						keep = append(keep, o)
+					}
 				}
+				r.Obls = keep
 			}
-			r.Obls = keep
 			out = append(out, r)
 		}
 	}
